@@ -4,7 +4,7 @@ import opsdrive
 
 BASE = ["C03_Robin", "C03_Periodic", "C03_InteriorKept", "C03_RowsSatisfied", "C03_RowsEncodeRobin",
         "C03_RowsOnGhostOnly", "C03_ScaleInvariant",
-        "C03_RobinCtor", "C03_RobinApply", "C03_RobinSolve", "C03_RobinExplicit",
+        "C03_CtorForms", "C03_RobinCtor", "C03_RobinApply", "C03_RobinSolve", "C03_RobinExplicit",
         "C03_PeriodicCtor", "C03_PeriodicApply", "C03_PeriodicSolve", "C03_PeriodicExplicit",
         "C03_InteriorKeptCtor", "C03_SolveRowsSatisfied", "C03_PlotProfile"]
 
